@@ -42,3 +42,11 @@ Proof. intros n order. exact (residual_ignores_span n (S order) monomial). Qed.
 Print Assumptions C19_rms_monotone_under_nesting.
 Print Assumptions C19_detrend_removes_only_the_trend.
 Print Assumptions C19_detrend0_idempotent.
+Print Assumptions C19_rms_additive_at_grid_point.
+Print Assumptions C19_integral_nonneg.
+Print Assumptions C19_empty_or_point_band_zero.
+Print Assumptions C19_detrend0_orthogonal.
+Print Assumptions C19_detrend0_kills_constant.
+Print Assumptions C19_detrend_orthogonal_to_polynomials.
+Print Assumptions C19_detrend_kills_polynomials.
+Print Assumptions C19_detrend_idempotent.
